@@ -625,76 +625,159 @@ func runC13Agree(c C13Case) vrt.Verdict {
 	if bad != "" {
 		return vrt.Discardf("%s", bad)
 	}
-	for _, f := range formats {
-		if _, ok := c.Texts[f]; !ok {
-			return vrt.Discardf("missing text")
+	docs := append([]C13Doc{{Layer: c.Data.Layers[0], Decoy: c.Decoy, Texts: c.Texts}}, c.More...)
+	for _, doc := range docs {
+		for _, f := range formats {
+			if _, ok := doc.Texts[f]; !ok {
+				return vrt.Discardf("missing text")
+			}
 		}
 	}
-	d := c.Data
-	fx := facts(T, nodes, d)
 	b := shape.NewBuilder(T, shape.ValueOpts{Plain: true})
-	want := b.Expected(d)
-	normIPs(want)
-	stacked := map[string]reflect.Value{}
-	for _, f := range formats {
-		defaults := b.Defaults(d)
-		pt := ptrify.Pointerify(T, defaults.Elem())
-		wantLayer, err := b.Layer(pt, d.Layers[0])
+	reused := map[string]dials.Decoder{}
+	decoder := func(f string) dials.Decoder {
+		if !c.Reuse {
+			return decoderFor(f, c.Wrap)
+		}
+		if reused[f] == nil {
+			reused[f] = decoderFor(f, c.Wrap)
+		}
+		return reused[f]
+	}
+	type result struct {
+		doc    int
+		format string
+		pt     reflect.Type
+		got    reflect.Value
+	}
+	var results []result
+	labelSet := map[string]bool{}
+	nt, deep, decoys, omitsEarlier := false, false, 0, false
+	everSet := map[string]bool{}
+	for di, doc := range docs {
+		d := shape.Data{Defaults: c.Data.Defaults, DefNil: c.Data.DefNil, Layers: []shape.Layer{doc.Layer}}
+		fx := facts(T, nodes, d)
+		for k := range fx.labels {
+			labelSet[k] = true
+		}
+		nt = nt || (fx.deepLeaf > 0 && fx.absent > 0 && fx.special)
+		deep = deep || fx.deepLeaf > 0
+		decoys += len(doc.Decoy)
+		for _, n := range nodes {
+			if n.Class == shape.ClassLeaf && everSet[n.Path] && doc.Layer.Set[n.Path] == 0 {
+				omitsEarlier = true
+			}
+		}
+		for k, sd := range doc.Layer.Set {
+			if sd != 0 {
+				everSet[k] = true
+			}
+		}
+		where := fmt.Sprintf("document %d of %d, wrap=%s", di+1, len(docs), c.Wrap)
+		want := b.Expected(d)
+		normIPs(want)
+		stacked := map[string]reflect.Value{}
+		for _, f := range formats {
+			defaults := b.Defaults(d)
+			pt := ptrify.Pointerify(T, defaults.Elem())
+			wantLayer, err := b.Layer(pt, doc.Layer)
+			if err != nil {
+				return vrt.Violationf("pointerified type cannot hold the data: %v", err)
+			}
+			normIPs(wantLayer)
+			got, err := decodeWith(decoder(f), doc.Texts[f], pt)
+			if err != nil {
+				if fx.textStructSlicePresent {
+					return vrt.KeyedViolationf("slice-of-text-struct", "%s decoder (%s) rejects a valid document that sets a slice of text-unmarshalable structs: %v\n%s", f, where, err, doc.Texts[f])
+				}
+				return vrt.KeyedViolationf("valid-rejected", "%s decoder (%s) rejects a valid document: %v\n%s", f, where, err, doc.Texts[f])
+			}
+			if !got.IsValid() || got.Type() != pt {
+				return vrt.KeyedViolationf("wrong-type", "%s decoder returned %v, want a value of the type it was given", f, got)
+			}
+			got = addressableCopy(got)
+			normIPs(got)
+			if df := shape.Diff(wantLayer, got); df != "" {
+				return vrt.KeyedViolationf("decode-mismatch", "%s decoder (%s): decoded value differs from the data of this document at %s (want vs got)\n%s", f, where, df, doc.Texts[f])
+			}
+			results = append(results, result{di, f, pt, got})
+			out, err := dials.VerifCompose(defaults.Interface(), []reflect.Value{got})
+			if err != nil {
+				return vrt.KeyedViolationf("stack-error", "%s (%s): stacking the decoded value over the defaults failed: %v", f, where, err)
+			}
+			ov := reflect.ValueOf(out)
+			if ov.Type() != reflect.PointerTo(T) {
+				return vrt.Violationf("%s: stacked value has type %s", f, ov.Type())
+			}
+			normIPs(ov)
+			stacked[f] = ov
+		}
+		for i, f := range formats {
+			for _, g := range formats[i+1:] {
+				if df := shape.Diff(stacked[f].Elem(), stacked[g].Elem()); df != "" {
+					return vrt.KeyedViolationf("decoders-disagree", "%s and %s configs differ at %s (%s)\n--- %s\n%s--- %s\n%s", f, g, df, where, f, doc.Texts[f], g, doc.Texts[g])
+				}
+			}
+		}
+		for _, f := range formats {
+			if df := shape.Diff(want.Elem(), stacked[f].Elem()); df != "" {
+				return vrt.KeyedViolationf("model-mismatch", "%s config (%s) differs from the reference model at %s (want vs got)\n%s", f, where, df, doc.Texts[f])
+			}
+		}
+	}
+	// a value handed out earlier is not changed by later decodes or by stacking
+	for _, r := range results {
+		wantLayer, err := b.Layer(r.pt, docs[r.doc].Layer)
 		if err != nil {
 			return vrt.Violationf("pointerified type cannot hold the data: %v", err)
 		}
 		normIPs(wantLayer)
-		got, err := decodeText(f, c.Wrap, c.Texts[f], pt)
-		if err != nil {
-			if fx.textStructSlicePresent {
-				return vrt.KeyedViolationf("slice-of-text-struct", "%s decoder (wrap=%s) rejects a valid document that sets a slice of text-unmarshalable structs: %v\n%s", f, c.Wrap, err, c.Texts[f])
-			}
-			return vrt.KeyedViolationf("valid-rejected", "%s decoder (wrap=%s) rejects a valid document: %v\n%s", f, c.Wrap, err, c.Texts[f])
-		}
-		if !got.IsValid() || got.Type() != pt {
-			return vrt.KeyedViolationf("wrong-type", "%s decoder returned %v, want a value of the type it was given", f, got)
-		}
-		got = addressableCopy(got)
-		normIPs(got)
-		if df := shape.Diff(wantLayer, got); df != "" {
-			return vrt.KeyedViolationf("decode-mismatch", "%s decoder (wrap=%s): decoded value differs from the data at %s (want vs got)\n%s", f, c.Wrap, df, c.Texts[f])
-		}
-		out, err := dials.VerifCompose(defaults.Interface(), []reflect.Value{got})
-		if err != nil {
-			return vrt.KeyedViolationf("stack-error", "%s: stacking the decoded value over the defaults failed: %v", f, err)
-		}
-		ov := reflect.ValueOf(out)
-		if ov.Type() != reflect.PointerTo(T) {
-			return vrt.Violationf("%s: stacked value has type %s", f, ov.Type())
-		}
-		normIPs(ov)
-		stacked[f] = ov
-	}
-	for i, f := range formats {
-		for _, g := range formats[i+1:] {
-			if df := shape.Diff(stacked[f].Elem(), stacked[g].Elem()); df != "" {
-				return vrt.KeyedViolationf("decoders-disagree", "%s and %s configs differ at %s (wrap=%s)\n--- %s\n%s--- %s\n%s", f, g, df, c.Wrap, f, c.Texts[f], g, c.Texts[g])
-			}
+		if df := shape.Diff(wantLayer, r.got); df != "" {
+			return vrt.KeyedViolationf("earlier-result-mutated", "%s decoder (wrap=%s): the value decoded from document %d of %d was changed afterwards at %s (data vs value now)", r.format, c.Wrap, r.doc+1, len(docs), df)
 		}
 	}
-	for _, f := range formats {
-		if df := shape.Diff(want.Elem(), stacked[f].Elem()); df != "" {
-			return vrt.KeyedViolationf("model-mismatch", "%s config differs from the reference model at %s (want vs got)\n%s", f, df, c.Texts[f])
-		}
-	}
-	labels := []string{"wrap:" + c.Wrap}
-	labels = append(labels, shape.SortedKeys(fx.labels)...)
+	labels := []string{"wrap:" + c.Wrap, fmt.Sprintf("documents=%d", len(docs))}
+	labels = append(labels, shape.SortedKeys(labelSet)...)
 	labels = append(labels, c.Styles...)
-	if fx.deepLeaf > 0 {
+	if deep {
 		labels = append(labels, "present-leaf-at-depth>=2")
 	}
-	nt := fx.deepLeaf > 0 && fx.absent > 0 && fx.special
-	return vrt.OK(nt, labels...)
+	if decoys > 0 {
+		labels = append(labels, "decoy-dials-key")
+	}
+	if omitsEarlier {
+		labels = append(labels, "later-document-omits-earlier-key")
+	}
+	if c.Reuse {
+		labels = append(labels, "decoder-reused")
+	}
+	for _, n := range nodes {
+		for _, tn := range []string{"json", "yaml", "toml"} {
+			if strings.Contains(n.SF.Tag.Get(tn), ",") {
+				labels = append(labels, "format-tag-with-options:"+tn)
+			}
+		}
+	}
+	return vrt.OK(nt, dedup(labels)...)
+}
+
+func dedup(in []string) []string {
+	seen := map[string]bool{}
+	var out []string
+	for _, s := range in {
+		if !seen[s] {
+			seen[s] = true
+			out = append(out, s)
+		}
+	}
+	return out
 }
 
 var c13Assumptions = []string{
 	"every field carries a dials tag; key names are [A-Za-z][A-Za-z0-9_-]* and sibling names (over all formats) differ even when case is ignored, because encoding/json and go-toml match keys case-insensitively",
-	"format-specific tags are plain names (no options, no \"-\"); the Cue decoder reads json tags and a cue tag means nothing",
+	"format-specific tags name the field (never \"-\", never options only) and about a third carry options that matter only to encoders (omitempty for json/yaml/toml, flow for yaml on collections and structs); the Cue decoder reads json tags and a cue tag means nothing",
+	"a decoy key (the dials name of an absent leaf, written in the documents of those formats where the field has a name of its own) must leave the leaf unset: with a named format tag none of the four libraries falls back to another name, unknown keys are ignored by all of them, and sibling names are unique",
+	"the documents of a history are for one type; types come from reflect.StructOf, which returns the identical type for identical shapes, so state kept per type inside a decoder package may also carry over from earlier cases of the run: no case assumes a type it is the first to use",
 	"integers stay within the int64 range (TOML cannot spell larger ones) and 64-bit signed values are never math.MinInt64 (Cue v0.6.0 refuses it: \"value was rounded up\"); floats are finite and written in shortest round-trip form, with a fraction or exponent in TOML (go-toml refuses an integer literal for a float field)",
 	"strings, map keys and set elements are plain ASCII words: quoting rules of the third-party parsers are not the subject",
 	"durations are written as time.Duration.String() text, or integer nanoseconds in JSON and Cue only; times are RFC 3339 UTC with second precision (a native date-time in TOML, an unquoted timestamp or a string in YAML)",
@@ -708,10 +791,11 @@ var c13Assumptions = []string{
 func TestC13Agree(t *testing.T) {
 	vrt.Check(t, vrt.Prop[C13Case]{
 		ID: "C13", Name: "agree",
-		Rule: "config types (depth<=3, <=5 fields per struct; nested and pointer structs; scalars, named scalars, durations, times, net.IP, Stamp, Color, slices, string-keyed maps, sets, collections of those, and non-empty lists of dials-tagged structs whose tags differ from the field names) with a dials tag on every field and a different json/yaml/toml/cue tag on about a quarter of them; " +
+		Rule: "config types (depth<=3, <=5 fields per struct; nested and pointer structs; scalars, named scalars, durations, times, net.IP, Stamp, Color, slices, string-keyed maps, sets, collections of those, and non-empty lists of dials-tagged structs whose tags differ from the field names) with a dials tag on every field and a differently named json/yaml/toml/cue tag on about a quarter of them, a third of those with options (omitempty, flow); " +
+			"a history of one to three documents for the same type (independent key subsets and values, so later ones omit keys earlier ones had), decoded one after the other by every decoder, with one Decoder value per format for the whole history or a fresh one per document; some absent leaves appear under their dials name in the formats where the field has its own name (decoy key, must stay unset); " +
 			"non-zero defaults; any subset of leaf keys present, struct keys sometimes present with nothing below; the data is rendered by hand-written emitters to JSON, YAML, TOML and Cue (random layout: block/flow, tables/inline/dotted, quoting, key order, durations as text or integer nanoseconds) and the texts are stored in the case; " +
-			"oracle: each decoder's value equals the pointerified value built from the data (absent key = nil), the four values stacked over the defaults agree pairwise and equal the reference stacking model; " +
-			"non-trivial = a leaf at nesting depth >= 2 is present, at least one leaf key is absent and a duration, set or text-unmarshalable leaf is present; distinct = distinct case JSON",
+			"oracle, per document on its own: each decoder's value equals the pointerified value built from that document's data (absent key = nil, whatever earlier documents held), the four values stacked over the defaults agree pairwise and equal the reference stacking model; at the end no value handed out earlier has changed; " +
+			"non-trivial = in some document a leaf at nesting depth >= 2 is present, at least one leaf key is absent and a duration, set or text-unmarshalable leaf is present; distinct = distinct case JSON",
 		Assumptions: c13Assumptions,
 		Gen:         genC13Agree, Run: runC13Agree,
 	})
